@@ -11,6 +11,22 @@ def run(chk):
     # the no-retry-after-forgery obligation belongs to C02; it is evaluated there as well
     chk.obligations = [o for o in chk.obligations if o.name not in ('no-retry-after-forgery',)]
     randomize(chk)
+    # the guarantee side of the exchange contract the loop exploration relies on: which outcomes are errors
+    # (Ok iff 2xx, else Err(HttpStatus)) and when a poll interval comes into force
+    import domaha
+    E = domaha.explore(chk, 4)
+    o1 = chk.ob('exchange-outcome-classes', 'the exchange function returns Ok exactly for 2xx statuses of an authenticated response and Err(HttpStatus) for every other status, and the poll interval it leaves is min(N,86400) s iff the header is a plain decimal u64 (header bound 4 bytes here; C07 decides it for 12 / 24)')
+    o2 = chk.ob('exchange-announce-order', '(see C07)')
+    o3 = chk.ob('exchange-no-response', '(see C07)')
+    D1, D2, D3 = Decide(chk, E.ex, o1, cross=False), Decide(chk, E.ex, o2, cross=False), Decide(chk, E.ex, o3, cross=False)
+    domaha.monitor_c07(E, D1, D2, D3)
+    f1 = D1.done()
+    D2.done()
+    D3.done()
+    if f1 and f1[0] == 'violated':
+        o1.key = o1.name
+    chk.obligations = [o for o in chk.obligations if o.name not in ('exchange-announce-order', 'exchange-no-response')]
+    chk.absorb(E.ex)
     chk.bounds.update({'attempt_loop_unrolling': 5, 'apps': 1, 'per-attempt outcomes': 'Ok | 6 error classes x (caller error?, poll interval present?)'})
     chk.assumptions += [
         'the exchange function is replaced by its contract (event + Result + poll interval changed only when a response arrived), established by C02/C07 on its own MIR',
